@@ -149,6 +149,31 @@ let run_line lineno line =
       (join face t.Model.tfaces) (join ni k.Model.offsets) (join ni k.Model.counts) (join ni k.Model.connections)
       (join ni t.Model.tstored) (String.concat "," nb) (String.concat "," fidx)
       (join face (Model.face_integrals cs)) (join face (Model.face_integrals_sym active cs)) (join ni (Model.cell_integrals cs))
+  | "nn" :: rest ->
+    (* nn q(3) nshifts (sx sy sz code)* <tree in prefix form: L id x y z | N lox loy loz hix hiy hiz nchildren ...> *)
+    let q, rest = v3 rest in
+    (match rest with
+     | ns :: rest ->
+       let ns = int_of_string ns in
+       let rec shifts k l acc = if k = 0 then (List.rev acc, l) else
+           (let s, l = v3 l in match l with c :: l -> shifts (k - 1) l ((s, z c) :: acc) | [] -> failwith "shifts") in
+       let sh, rest = shifts ns rest [] in
+       let rec tree l = match l with
+         | "L" :: id :: l -> let p, l = v3 l in (Model.RLeaf (z id, p), l)
+         | "N" :: l ->
+           let lo, l = v3 l in let hi, l = v3 l in
+           (match l with
+            | nc :: l ->
+              let rec kids k l acc = if k = 0 then (List.rev acc, l) else (let (t, l) = tree l in kids (k - 1) l (t :: acc)) in
+              let cs, l = kids (int_of_string nc) l [] in
+              (Model.RNode (lo, hi, cs), l)
+            | [] -> failwith "node")
+         | _ -> failwith "tree" in
+       let rec forest l acc = match l with [] -> List.rev acc | _ -> let (t, l) = tree l in forest l (t :: acc) in
+       let cs = forest rest [] in
+       let out = Model.visits q sh cs in
+       Printf.printf "%d [%s]\n" lineno (join (fun (k, (id, code)) -> Printf.sprintf "[%s,%s,%s]" (zs k) (zs id) (zs code)) out)
+     | [] -> failwith "nn")
   | "insphere_sweep" :: k :: off :: ai :: _ ->
     let k = int_of_string k and off = z off and ai = int_of_string ai in
     let pt i =
